@@ -91,13 +91,27 @@ def regenerate():
     notes["heap"] = translate_src.generate_heap(REPO, os.path.join(COQ, "Gen", "SrcHeap.v"))
     notes["schema"] = translate_src.generate_schema(REPO, os.path.join(COQ, "Gen", "SrcSchema.v"))
     notes["fields"] = translate_src.generate_fields(REPO, os.path.join(COQ, "Gen", "SrcFields.v"))
+    notes["fresh"] = translate_src.generate_fresh(REPO, os.path.join(COQ, "Gen", "SrcFresh.v"))
     return notes
 
 
-def coq_build(jobs=16, timeout=1500):
+def coq_build(jobs=16, timeout=1500, pid=None, imports=""):
+    """builds what the check of [pid] needs: Props/<pid>.vo and the modules its case files import (and whatever
+    those depend on).  A file that only another property needs and that no longer compiles (a proof obligation
+    of that property broken by a change of /repo) does not make this property's check fail."""
     if not os.path.exists(os.path.join(COQ, "Makefile")):
         run(["coq_makefile", "-f", "_CoqProject", "-o", "Makefile"], 60, cwd=COQ)
-    rc, out, dt = run(["make", "-k", "-j%d" % jobs], timeout, cwd=COQ)
+    if pid is None:
+        rc, out, dt = run(["make", "-k", "-j%d" % jobs], timeout, cwd=COQ)
+        return rc == 0, out, dt
+    targets = ["Props/%s.vo" % pid, "Base/Ser.vo"]
+    for m in imports.replace("{TAG}", "39").split():
+        path = m.replace(".", "/") + ".vo"
+        if os.path.exists(os.path.join(COQ, path[:-1])):
+            targets.append(path)
+    for tag in ("37", "38", "39", "310"):
+        targets.append("Gen/Cfg%s.vo" % tag)
+    rc, out, dt = run(["make", "-k", "-j%d" % jobs] + sorted(set(targets)), timeout, cwd=COQ)
     return rc == 0, out, dt
 
 
@@ -410,7 +424,7 @@ def finish(pid, tier, seed, t0, spec, proof, workers, corr, extra_cov=None, buil
         "discharged": len(proof["discharged"]) if proof_ok or proof["exists"] else 0,
         "theorems": proof["obligations"],
         "print_assumptions": proof["assumptions"],
-        "checker_cmd": "cd /verif/coq && make -k -j16 && coqc -Q . PCD Props/%s.v" % pid,
+        "checker_cmd": "cd /verif/coq && make -k -j16 Props/%s.vo <modules the case files import> && coqc -Q . PCD Props/%s.v" % (pid, pid),
         "trusted_base": spec["trusted_base"],
         "evaluations": evaluations,
         "distinct_nontrivial": distinct,
